@@ -6,4 +6,4 @@ mkdir -p extracted
 ( cd extracted && timeout 300 coqc -Q ../../coq/theories Meddly ../../coq/theories/Extract.v >/dev/null )
 rm -f ../coq/theories/Extract.vo ../coq/theories/Extract.glob ../coq/theories/.Extract.aux ../coq/theories/Extract.vok ../coq/theories/Extract.vos
 cp driver.ml extracted/driver.ml
-( cd extracted && ocamlfind ocamlopt -w -a -O2 model.mli model.ml driver.ml -o ../mmodel 2>/dev/null || ocamlfind ocamlopt -w -a model.mli model.ml driver.ml -o ../mmodel )
+( cd extracted && ocamlfind ocamlopt -package str -linkpkg -w -a model.mli model.ml driver.ml -o ../mmodel )
